@@ -1,3 +1,4 @@
+\* pass P: the property on recorded real state; accounting clauses modulo deviations recognisable from the recorded pre-state (Put of another content on a cached key)
 CONSTANT Threads = {"t1", "t2", "t3", "t4"}
 CONSTANT Keys <- TKeys
 CONSTANT CvKeys <- TCvKeys
